@@ -370,6 +370,69 @@ def run_stream(chk, prog, sim, name, n=None):
         chk.discharge(okey)
 
 
+def atoms(v):
+    """leaf values of a resolved value (None if it contains a computed term)"""
+    if isinstance(v, (Struct, Enum)):
+        out = []
+        for f in v.fields:
+            a = atoms(f)
+            if a is None:
+                return None
+            out += a
+        return out
+    if isinstance(v, Array):
+        out = []
+        for f in v.elems:
+            a = atoms(f)
+            if a is None:
+                return None
+            out += a
+        return out
+    if isinstance(v, (Sym, Const)):
+        return [v]
+    if isinstance(v, Lin):
+        if len(v.terms) == 1 and v.terms[0][1] == 1 and v.c == 0 and isinstance(v.terms[0][0], Sym):
+            return [v.terms[0][0]]
+        return None
+    if isinstance(v, Opaque) and v.kind == "PhantomData":
+        return []
+    return None
+
+
+def check_constructors(chk, prog, sim):
+    """A stateless combinator's documented behaviour is stated in terms of its constructor arguments (the limit of an
+    expirer, the replacement of none_to_value, the inputs): `new` must store every argument as given - a normalised,
+    clamped or converted argument changes the table although get() is untouched."""
+    import numkit as N
+    n = 0
+    for name in ALL:
+        news = [f for f in prog.find_fns(name="new", self_name=name) if not f.get("impl_trait")]
+        for new in news:
+            n += 1
+            key = "ctor:" + name
+            chk.obligation(key, "%s::new stores its arguments unmodified" % name)
+            chk.analysed(new["pretty"])
+            try:
+                st0, oid, v0 = N.fresh_object(sim, prog, name, new_fn=new)
+            except (S.Unsupported, AnchorMissing) as e:
+                chk.violation("analysis-incomplete", key, "%s::new could not be evaluated: %s" % (name, e), fn=new["pretty"], file=loc(new["span"]))
+                continue
+            chk.evaluated(1, nontrivial=(key, repr(v0)[:80]))
+            argn = [x["name"] for x in new["body"]["names"]][:len(new["sig_inputs"])]
+            ok = True
+            for (fname, fty), fv in zip(sim.adt_fields(v0.ty), v0.fields):
+                a = atoms(fv)
+                bad = a is None or any(isinstance(x, Sym) and not any(x.name == an or x.name.startswith(an + ".") for an in argn) for x in a)
+                if bad:
+                    chk.violation("C02.table", "%s:field:%s" % (key, fname), "%s::new stores %r in field `%s`: not the constructor argument as given, so get() no longer follows the documented table for the arguments the caller passed"
+                                  % (name, fv, fname), fn=new["pretty"], file=loc(new["span"]))
+                    ok = False
+            if ok:
+                chk.discharge(key)
+    if n < 14:
+        chk.violation("floor", "C02.ctors", "expected at least 14 constructors of stateless getters, found %d" % n)
+
+
 def run(chk):
     tier = chk.tier
     prog = load_config("K1")
@@ -391,6 +454,10 @@ def run(chk):
             run_stream(chk, prog, sim, name)
     if present < 18:
         chk.violation("floor", "C02.streams", "expected 18 stateless getters, found %d" % present)
+    check_constructors(chk, prog, sim)
+    # the exponent stream's operator is the crate's own powf wrapper, one per float provider (table shared with C12)
+    from rules import C12
+    C12.check_powf_providers(chk)
     chk.assume("inputs are stable within one get (an oracle returns the same outcome when polled twice without an intervening mutation)",
                "generic payload operators (Add/Mul/.. on T) are uninterpreted: equality of provenance terms, not of numbers",
                "Clone of a generic payload is faithful")
